@@ -104,6 +104,41 @@ pub fn make_pool(family: &str, dim: usize, seed: u64, n: usize) -> Vec<Vec<f64>>
                 p[0] += (1u64 << 40) as f64;
                 p
             }
+            // the textbook configuration on which the visibility walk cycles once the long
+            // diagonals have been flipped in: an outer simplex, a smaller twisted copy inside it
+            // (first 2(D+1) pool points, always part of the initial vertex set), then filler
+            "pinwheel" => {
+                let k = out.len();
+                let outer = |i: usize, r: &mut Rng| -> Vec<f64> {
+                    let mut p = vec![0.0; dim];
+                    if i > 0 {
+                        p[i - 1] = 24.0;
+                    } else {
+                        for c in p.iter_mut() {
+                            *c = -6.0;
+                        }
+                    }
+                    let _ = r;
+                    p
+                };
+                if k <= dim {
+                    let mut p = outer(k, &mut rng);
+                    // a little asymmetry so that no two runs share the same outer simplex
+                    let ax = rng.usize_below(dim);
+                    p[ax] += rng.range_i64(-2, 2) as f64;
+                    p
+                } else if k <= 2 * dim + 1 {
+                    let i = k - dim - 1;
+                    let os: Vec<Vec<f64>> = (0..=dim).map(|j| out[j].clone()).collect();
+                    let cen: Vec<f64> = (0..dim).map(|a| os.iter().map(|o| o[a]).sum::<f64>() / (dim as f64 + 1.0)).collect();
+                    let a = &os[i];
+                    let b = &os[(i + 1) % (dim + 1)];
+                    let (wa, wb) = *rng.pick(&[(0.40, 0.25), (0.35, 0.20), (0.45, 0.30), (0.30, 0.30)]);
+                    (0..dim).map(|x| ((cen[x] + wa * (a[x] - cen[x]) + wb * (b[x] - cen[x])) * 8.0).round() / 8.0).collect()
+                } else {
+                    (0..dim).map(|_| rng.range_i64(-40, 200) as f64 / 8.0).collect()
+                }
+            }
             "wide" => (0..dim).map(|_| (rng.range_i64(0, 1023) as f64) * (1u64 << 30) as f64).collect(),
             "tiny" => (0..dim).map(|_| (rng.range_i64(0, 1023) as f64) / (1u64 << 30) as f64).collect(),
             "cluster" => {
@@ -228,6 +263,10 @@ pub struct Gen {
     /// per-mille probability that a vertex handed to the library carries a preset `incident_cell`
     /// (live, stale or fabricated cell key), like a vertex value copied out of a triangulation
     pub preset_incident_permille: u64,
+    /// per-mille probability that a k=2 flip is aimed at an interior facet whose flip keeps the
+    /// complex embedded (the two apexes see each other through the facet): a random walk on the
+    /// flip graph of the point set, i.e. valid but deliberately non-Delaunay triangulations
+    pub embedded_k2_permille: u64,
 }
 
 fn present(snap: &Snap, p: &[f64]) -> bool {
@@ -251,6 +290,7 @@ impl Gen {
             nonfinite_permille: 0,
             legal_bias_permille: 0,
             preset_incident_permille: 0,
+            embedded_k2_permille: 0,
         }
     }
 
@@ -288,6 +328,81 @@ impl Gen {
     }
 
     /// A combinatorially plausible Edit-API move of the given generator slot, if any.
+    /// A k=2 flip across an interior facet whose two apexes lie strictly on opposite sides of every
+    /// hyperplane spanned by the segment's ... in short: all D replacement cells keep one strict
+    /// orientation sign, so the flipped complex is still embedded (decided exactly).
+    fn embedded_k2(&self, rng: &mut Rng, snap: &Snap, obj: usize) -> Option<Op> {
+        let d = self.dim;
+        let coords = snap.key_to_coords();
+        let k2u = snap.key_to_uuid();
+        let mut cands: Vec<(usize, u8)> = Vec::new();
+        for (ci, c) in snap.cells.iter().enumerate() {
+            let Some(nb) = &c.nbrs else { continue };
+            for (fi, n) in nb.iter().enumerate() {
+                let Some(nk) = n else { continue };
+                if *nk < c.key {
+                    continue;
+                }
+                let Some(other) = snap.cells.iter().find(|x| x.key == *nk) else { continue };
+                let a = c.verts[fi];
+                let Some(b) = other.verts.iter().copied().find(|v| !c.verts.contains(v)) else { continue };
+                let facet: Vec<u64> = c.verts.iter().copied().filter(|v| *v != a).collect();
+                if facet.len() != d {
+                    continue;
+                }
+                // replacement cells: {a, b} + facet minus one vertex, in a fixed slot order
+                let mut signs: Vec<crate::exact::Sign> = Vec::new();
+                let mut ok = true;
+                for j in 0..d {
+                    let mut pts: Vec<&[f64]> = Vec::with_capacity(d + 1);
+                    for (i, f) in facet.iter().enumerate() {
+                        let key = if i == j { b } else { *f };
+                        match coords.get(&key) {
+                            Some(p) => pts.push(&p[..]),
+                            None => ok = false,
+                        }
+                    }
+                    match coords.get(&a) {
+                        Some(p) => pts.push(&p[..]),
+                        None => ok = false,
+                    }
+                    if !ok {
+                        break;
+                    }
+                    signs.push(crate::exact::orient(&pts));
+                }
+                if !ok || signs.is_empty() {
+                    continue;
+                }
+                // b lies on the same strict side as f_j of the hyperplane through a and the other
+                // facet vertices, for every j: the segment ab crosses the interior of the facet
+                let mut refpts: Vec<&[f64]> = Vec::with_capacity(d + 1);
+                for f in &facet {
+                    if let Some(p) = coords.get(f) {
+                        refpts.push(&p[..]);
+                    }
+                }
+                if let Some(p) = coords.get(&a) {
+                    refpts.push(&p[..]);
+                }
+                if refpts.len() != d + 1 {
+                    continue;
+                }
+                let reference = crate::exact::orient(&refpts);
+                let first = reference.sign;
+                if first != 0 && reference.decidable && signs.iter().all(|s| s.decidable && s.sign == first) {
+                    cands.push((ci, fi as u8));
+                }
+            }
+        }
+        if cands.is_empty() {
+            return None;
+        }
+        let (ci, fi) = *rng.pick(&cands);
+        let us: Option<Vec<Hex128>> = snap.cells[ci].verts.iter().map(|k| k2u.get(k).map(|u| Hex128(*u))).collect();
+        Some(Op::FlipK2 { obj, cell: CRef::Verts(us?), facet: fi })
+    }
+
     fn plausible(&self, rng: &mut Rng, snap: &Snap, obj: usize, slot: usize) -> Option<Op> {
         let d = self.dim;
         let k2u = snap.key_to_uuid();
@@ -367,6 +482,14 @@ impl Gen {
     pub fn initial_vertices(&self, rng: &mut Rng, n: usize) -> Vec<VSpec> {
         let mut idx: Vec<usize> = (0..self.pool.len()).collect();
         rng.shuffle(&mut idx);
+        if self.family == "pinwheel" {
+            // the structured prefix of the pool comes first
+            let k = (2 * (self.dim + 1)).min(self.pool.len());
+            idx.retain(|i| *i >= k);
+            let mut pre: Vec<usize> = (0..k).collect();
+            pre.extend(idx);
+            idx = pre;
+        }
         let mut out: Vec<VSpec> = idx
             .into_iter()
             .take(n)
@@ -540,7 +663,15 @@ impl Gen {
                 Op::FlipK1Insert { obj, cell, v }
             }
             4 => Op::FlipK1Remove { obj, v: self.vertex_handle(&mut rng, snap) },
-            5 => Op::FlipK2 { obj, cell: self.cell_handle(&mut rng, snap), facet: self.facet_index(&mut rng) },
+            5 => {
+                if self.embedded_k2_permille > 0
+                    && rng.below(1000) < self.embedded_k2_permille
+                    && let Some(op) = self.embedded_k2(&mut rng, snap, obj)
+                {
+                    return op;
+                }
+                Op::FlipK2 { obj, cell: self.cell_handle(&mut rng, snap), facet: self.facet_index(&mut rng) }
+            }
             6 => Op::FlipK3 {
                 obj,
                 cell: self.cell_handle(&mut rng, snap),
